@@ -48,7 +48,7 @@ REQUIRED = ["roundtrips", "src_text", "src_bytes", "src_path", "offset_0", "offs
             "trees_with_int64_ids", "same_path_rewritten_then_read",
             "rejected_reads_before_roundtrip",
             "tap_to_swc", "tap_parse_swc", "tap_reset_index_"]
-FLOOR = {"quick": 500, "thorough": 10000}
+FLOOR = {"quick": 500, "thorough": 40000}
 SHARDS = {"quick": 8, "thorough": 16}
 
 OFFSETS = [0, 1, 1, 2, 7, 1000, 2**30]
@@ -278,7 +278,7 @@ def run(ctx):
                           "reset_index_": normalizer.reset_index_})
     with tap:
         rng = ctx.rng
-        n_cases = ctx.scale(900, 16000)
+        n_cases = ctx.scale(900, 64000)
         for k in range(n_cases):
             rc = G.random_recipe(rng, max_n=G.size_ladder(ctx, k, 8, 40, 300), extras=0)
             writes = []
